@@ -108,59 +108,78 @@ theorem class_specs (evs : Evs α) :
 
 /-! ### PDG-id and status filters; the answer does not depend on the container type -/
 
-/-- admissible: every particle has a PDG id (`int(nan)` raises otherwise — see `species_unset_raises`) -/
+/-- every particle has a PDG id.  No longer needed by the species theorems (a particle without PDG id is dropped since the
+NaN test precedes `int(elem.pdg)`); kept because callers (C05) still pass it. -/
 def PdgSet (evs : Evs α) : Prop := ∀ ev ∈ evs, ∀ p ∈ ev, p.pdg ≠ none
 
-theorem species_scalar_spec (evs : Evs α) (h : PdgSet evs) (x : Int) :
+/-- `particle_species` with a scalar code, for EVERY particle list (unset PDG ids included) -/
+theorem species_scalar_spec_all (evs : Evs α) (x : Int) :
     applyCall ofNat (.species (.scalar x)) evs = .ok (keepSpec (speciesP [x]) evs) := by
   unfold applyCall particleSpecies
   apply runLoop_ok _ (by decide)
-  intro ev hev p hp
+  intro ev _ p _
   cases hq : p.pdg with
-  | none => exact absurd hq (h ev hev p hp)
+  | none => simp [particle_species_cond_0, intOf, isnan, speciesP, hq, andE, notE]
   | some c =>
-    simp [particle_species_cond_0, intOf, isnan, speciesP, hq]
-    by_cases hc : c = x <;> simp [hc]
+    simp [particle_species_cond_0, intOf, isnan, speciesP, hq, andE, notE]
+    try (by_cases hc : c = x <;> simp [hc])
 
-theorem species_list_spec (evs : Evs α) (h : PdgSet evs) (xs : List Int) :
+theorem species_list_spec_all (evs : Evs α) (xs : List Int) :
     applyCall ofNat (.species (.list xs)) evs = .ok (keepSpec (speciesP xs) evs) ∧
     applyCall ofNat (.species (.tuple xs)) evs = .ok (keepSpec (speciesP xs) evs) ∧
     applyCall ofNat (.species (.ndarray xs)) evs = .ok (keepSpec (speciesP xs) evs) := by
   refine ⟨?_, ?_, ?_⟩ <;>
   · unfold applyCall particleSpecies
     apply runLoop_ok _ (by decide)
-    intro ev hev p hp
-    cases hq : p.pdg with
-    | none => exact absurd hq (h ev hev p hp)
-    | some c => simp [particle_species_cond_1, intOf, isnan, speciesP, hq]
+    intro ev _ p _
+    cases hq : p.pdg <;> simp [particle_species_cond_1, intOf, isnan, speciesP, hq, andE, notE]
 
-theorem remove_species_scalar_spec (evs : Evs α) (h : PdgSet evs) (x : Int) :
+theorem remove_species_scalar_spec_all (evs : Evs α) (x : Int) :
     applyCall ofNat (.removeSpecies (.scalar x)) evs = .ok (keepSpec (notSpeciesP [x]) evs) := by
   unfold applyCall removeParticleSpecies
   apply runLoop_ok _ (by decide)
-  intro ev hev p hp
+  intro ev _ p _
   cases hq : p.pdg with
-  | none => exact absurd hq (h ev hev p hp)
+  | none => simp [remove_particle_species_cond_0, intOf, isnan, notSpeciesP, hq, andE, notE]
   | some c =>
-    simp [remove_particle_species_cond_0, intOf, isnan, notSpeciesP, hq]
-    by_cases hc : c = x <;> simp [hc]
+    simp [remove_particle_species_cond_0, intOf, isnan, notSpeciesP, hq, andE, notE]
+    try (by_cases hc : c = x <;> simp [hc])
 
-theorem remove_species_list_spec (evs : Evs α) (h : PdgSet evs) (xs : List Int) :
+theorem remove_species_list_spec_all (evs : Evs α) (xs : List Int) :
     applyCall ofNat (.removeSpecies (.list xs)) evs = .ok (keepSpec (notSpeciesP xs) evs) ∧
     applyCall ofNat (.removeSpecies (.tuple xs)) evs = .ok (keepSpec (notSpeciesP xs) evs) ∧
     applyCall ofNat (.removeSpecies (.ndarray xs)) evs = .ok (keepSpec (notSpeciesP xs) evs) := by
   refine ⟨?_, ?_, ?_⟩ <;>
   · unfold applyCall removeParticleSpecies
     apply runLoop_ok _ (by decide)
-    intro ev hev p hp
-    cases hq : p.pdg with
-    | none => exact absurd hq (h ev hev p hp)
-    | some c => simp [remove_particle_species_cond_1, intOf, isnan, notSpeciesP, hq]
+    intro ev _ p _
+    cases hq : p.pdg <;> simp [remove_particle_species_cond_1, intOf, isnan, notSpeciesP, hq, andE, notE]
 
-/-- the error branch: a particle without PDG id makes the species comparison raise `ValueError` -/
-theorem species_unset_raises (x : Int) (p : Part α) (h : p.pdg = none) :
-    particle_species_cond_0 x p = .error .value := by
-  simp [particle_species_cond_0, intOf, h]
+/-- the former statements (with the now superfluous hypothesis), kept for their users -/
+theorem species_scalar_spec (evs : Evs α) (_h : PdgSet evs) (x : Int) :
+    applyCall ofNat (.species (.scalar x)) evs = .ok (keepSpec (speciesP [x]) evs) :=
+  species_scalar_spec_all ofNat evs x
+
+theorem species_list_spec (evs : Evs α) (_h : PdgSet evs) (xs : List Int) :
+    applyCall ofNat (.species (.list xs)) evs = .ok (keepSpec (speciesP xs) evs) ∧
+    applyCall ofNat (.species (.tuple xs)) evs = .ok (keepSpec (speciesP xs) evs) ∧
+    applyCall ofNat (.species (.ndarray xs)) evs = .ok (keepSpec (speciesP xs) evs) :=
+  species_list_spec_all ofNat evs xs
+
+theorem remove_species_scalar_spec (evs : Evs α) (_h : PdgSet evs) (x : Int) :
+    applyCall ofNat (.removeSpecies (.scalar x)) evs = .ok (keepSpec (notSpeciesP [x]) evs) :=
+  remove_species_scalar_spec_all ofNat evs x
+
+theorem remove_species_list_spec (evs : Evs α) (_h : PdgSet evs) (xs : List Int) :
+    applyCall ofNat (.removeSpecies (.list xs)) evs = .ok (keepSpec (notSpeciesP xs) evs) ∧
+    applyCall ofNat (.removeSpecies (.tuple xs)) evs = .ok (keepSpec (notSpeciesP xs) evs) ∧
+    applyCall ofNat (.removeSpecies (.ndarray xs)) evs = .ok (keepSpec (notSpeciesP xs) evs) :=
+  remove_species_list_spec_all ofNat evs xs
+
+/-- a particle without PDG id is dropped by the species comparison (it used to raise `ValueError`: fixed in /repo) -/
+theorem species_unset_dropped (x : Int) (p : Part α) (h : p.pdg = none) :
+    particle_species_cond_0 x p = .ok false := by
+  simp [particle_species_cond_0, intOf, isnan, h, andE, notE]
 
 theorem status_scalar_spec (evs : Evs α) (x : Int) :
     applyCall ofNat (.status (.scalar x)) evs = .ok (keepSpec (statusP [x]) evs) := by
